@@ -1,3 +1,181 @@
-Require Import C09_Run.
-Theorem placeholder : True. Proof. exact I. Qed.
-Print Assumptions placeholder.
+Require Import String List Arith Bool ZArith PrimFloat.
+Require Import Tensor Num Result C09_Masked C09_Ops C09_Facts C09_Src C09_Run C09_Core C09_NI C09_NI2 C09_GenTie C09_Examples Gen_C09.
+Import ListNotations.
+(* C09 - missing points never influence results.  Bodies are pairs (values, mask) whose values under the mask are
+   arbitrary (nan, +-inf included); [agree_body b b'] says b and b' have the same confidences, the same missing pattern
+   and the same values at non-missing points.  Every theorem holds for every numeric instance O (reals, binary64) and
+   every choice E of the external numerics (fill values, float32 cast, atan/acos, the scipy interpolant): no law of the
+   arithmetic is used, so rounding, overflow and nan propagation are covered. *)
+
+(* two fillings of the missing slots of one pose agree - on every backend *)
+Theorem two_fillings_agree : forall (O : ops) (raw raw' conf : tensor (T O)), same_pose O raw raw' conf ->
+  agree_body O (np_ctor O (of_plain O raw) conf) (np_ctor O (of_plain O raw') conf) /\
+  agree_body O (t_ctor_plain O raw conf) (t_ctor_plain O raw' conf).
+Proof. exact (fun O raw raw' conf H => conj (same_pose_np O raw raw' conf H) (same_pose_t O raw raw' conf H)). Qed.
+Print Assumptions two_fillings_agree.
+Example two_fillings_agree_nonvacuous : same_pose F_ops ex_raw ex_raw' ex_conf /\ bdat ex_np <> bdat ex_np'.
+Proof. exact (conj ex_same_pose ex_differ). Qed.
+Print Assumptions two_fillings_agree_nonvacuous.
+Example agree_nonvacuous : agree_body F_ops ex_np ex_np' /\ agree_body F_ops ex_t ex_t' /\ agree F_ops ex_p ex_p'.
+Proof. exact (conj ex_agree_np (conj ex_agree_t ex_agree_p)). Qed.
+Print Assumptions agree_nonvacuous.
+
+(* selection: points (get_components -> get_points) and frames, NumPy / Torch / TensorFlow *)
+Theorem selection_noninterference : forall (O : ops) (idx : list nat) (b b' : body O), agree_body O b b' ->
+  vres O (np_get_points O idx b) = vres O (np_get_points O idx b') /\
+  vres O (t_get_points O idx b) = vres O (t_get_points O idx b') /\
+  vres O (np_select_frames O idx b) = vres O (np_select_frames O idx b') /\
+  vres O (t_select_frames O idx b) = vres O (t_select_frames O idx b') /\
+  vres O (tf_select_frames O idx b) = vres O (tf_select_frames O idx b') /\
+  (forall int_cast : bool, vres O (tf_get_points O int_cast idx b) = vres O (tf_get_points O int_cast idx b')).
+Proof. exact (fun O idx b b' H => conj (np_get_points_ni O idx b b' H) (conj (t_get_points_ni O idx b b' H)
+  (conj (np_select_frames_ni O idx b b' H) (conj (t_select_frames_ni O idx b b' H)
+  (conj (tf_select_frames_ni O idx b b' H) (fun ic => tf_get_points_ni O ic idx b b' H)))))). Qed.
+Print Assumptions selection_noninterference.
+
+(* normalisation: Pose.normalize, normalize_distribution (with the returned mu, std), unnormalize_distribution *)
+Theorem normalize_noninterference : forall (O : ops) (E : ext O) (p1 p2 : nat) (scale_factor : T O) (b b' : body O),
+  agree_body O b b' -> agree_body O (np_normalize O E p1 p2 scale_factor b) (np_normalize O E p1 p2 scale_factor b').
+Proof. exact np_normalize_ni. Qed.
+Print Assumptions normalize_noninterference.
+Theorem normalize_distribution_noninterference : forall (O : ops) (E : ext O) (lead : nat) (b b' : body O), agree_body O b b' ->
+  agree_body O (fst (np_normalize_distribution O E lead b)) (fst (np_normalize_distribution O E lead b')) /\
+  snd (np_normalize_distribution O E lead b) = snd (np_normalize_distribution O E lead b').
+Proof. exact np_normalize_distribution_ni. Qed.
+Print Assumptions normalize_distribution_noninterference.
+Theorem unnormalize_distribution_noninterference : forall (O : ops) (mu sd : list (T O)) (b b' : body O), agree_body O b b' ->
+  agree_body O (np_unnormalize_distribution O mu sd b) (np_unnormalize_distribution O mu sd b').
+Proof. exact np_unnormalize_distribution_ni. Qed.
+Print Assumptions unnormalize_distribution_noninterference.
+Example normalize_nonvacuous :
+  visible_body F_ops (np_normalize F_ops FE 0 0 1%float ex_np) = visible_body F_ops (np_normalize F_ops FE 0 0 1%float ex_np').
+Proof. exact ex_normalize_runs. Qed.
+Print Assumptions normalize_nonvacuous.
+
+(* linear transforms: flip; matmul with any matrix (augment2d = matmul with the drawn matrix, for every draw) *)
+Theorem flip_noninterference : forall (O : ops) (axis : nat) (b b' : body O), agree_body O b b' ->
+  agree_body O (np_flip O axis b) (np_flip O axis b').
+Proof. exact np_flip_ni. Qed.
+Print Assumptions flip_noninterference.
+Theorem matmul_noninterference_numpy : forall (O : ops) (E' : nat) (M : list (T O)) (b b' : body O), agree_body O b b' ->
+  agree_body O (np_matmul O E' M b) (np_matmul O E' M b').
+Proof. exact np_matmul_ni. Qed.
+Print Assumptions matmul_noninterference_numpy.
+(* Torch / TensorFlow multiply the stored values; a result row is valid only if every coordinate of the point is *)
+Theorem matmul_noninterference_masked_tensor : forall (O : ops) (E' : nat) (M : list (T O)) (b b' : body O), agree_body O b b' ->
+  agree_body O (t_matmul O E' M b) (t_matmul O E' M b').
+Proof. exact t_matmul_ni. Qed.
+Print Assumptions matmul_noninterference_masked_tensor.
+
+(* interpolation, for every interpolant (linear / quadratic / cubic are instances of E.interp), every new frame count and
+   both defaults of first_step_index *)
+Theorem interpolate_noninterference : forall (O : ops) (E : ext O) (dflt_len : bool) (kind NF : nat) (b b' : body O), agree_body O b b' ->
+  vres O (np_interpolate O E dflt_len kind NF b) = vres O (np_interpolate O E dflt_len kind NF b').
+Proof. exact np_interpolate_ni. Qed.
+Print Assumptions interpolate_noninterference.
+
+(* bounding boxes and focus (focus: the body and the new header dimensions) *)
+Theorem bbox_noninterference : forall (O : ops) (E : ext O) (comps : list nat) (b b' : body O), agree_body O b b' ->
+  vres O (np_bbox O E comps b) = vres O (np_bbox O E comps b').
+Proof. exact np_bbox_ni. Qed.
+Print Assumptions bbox_noninterference.
+Theorem focus_noninterference : forall (O : ops) (E : ext O) (b b' : body O), agree_body O b b' ->
+  vfocus O (np_focus O E b) = vfocus O (np_focus O E b').
+Proof. exact np_focus_ni. Qed.
+Print Assumptions focus_noninterference.
+
+(* zero-filling: non-interference, and exactly 0 at every missing slot on every backend *)
+Theorem zero_filled_noninterference : forall (O : ops) (b b' : body O), agree_body O b b' ->
+  agree_body O (np_zero_filled O b) (np_zero_filled O b') /\ t_zero_filled O b = t_zero_filled O b'.
+Proof. exact (fun O b b' H => conj (np_zero_filled_ni O b b' H) (t_zero_filled_ni O b b' H)). Qed.
+Print Assumptions zero_filled_noninterference.
+Theorem zero_fill_exact : forall (O : ops) (b : body O) (k : nat), k < length (data (bdat b)) ->
+  (snd (rd O (data (bdat b)) k) = true -> rdT O (data (t_zero_filled O b)) k = zero O) /\
+  (snd (rd O (data (bdat (np_zero_filled O b))) k) = true -> fst (rd O (data (bdat (np_zero_filled O b))) k) = zero O).
+Proof. exact (fun O b k Hk => conj (fun Hm => t_zero_fill_exact O b k Hm Hk) (fun Hm => np_zero_fill_exact O b k Hm Hk)). Qed.
+Print Assumptions zero_fill_exact.
+(* ... stated on the zero_filled rule regenerated from torch/masked/tensor.py and tensorflow/masked/tensor.py *)
+Theorem zero_fill_exact_source_rule : forall (O : ops) (c : cell O), snd c = true ->
+  zf_sem O Gen_C09.torch_zero_filled c = zero O /\ zf_sem O Gen_C09.tf_zero_filled c = zero O.
+Proof. exact zero_fill_exact_gen. Qed.
+Print Assumptions zero_fill_exact_source_rule.
+Example zero_fill_nonvacuous : snd (nan, true) = true.
+Proof. exact ex_masked_cell. Qed.
+Print Assumptions zero_fill_nonvacuous.
+(* the rule the source had before the repair of F9 (value * mask) violates exactness: nan * 0 = nan *)
+Theorem zero_fill_by_multiplication_refuted : exists c : cell F_ops, snd c = true /\ zf_sem F_ops ZF_mul c <> zero F_ops.
+Proof. exact zero_fill_mul_refuted. Qed.
+Print Assumptions zero_fill_by_multiplication_refuted.
+
+(* serialisation round trip.  The file keeps the stored values and the confidences, not the mask (byte level: C01), so the
+   claim needs the class invariant "masked => confidence 0" (C12; established by the constructor) - partial in that sense *)
+Theorem roundtrip_noninterference_partial : forall (O : ops) (E : ext O) (b b' : body O),
+  (forall x, is0 O x = true -> is0 O (cast32 E x) = true) ->
+  wf_body O b -> mask_le_conf O b -> mask_le_conf O b' -> agree_body O b b' ->
+  agree_body O (np_roundtrip O E b) (np_roundtrip O E b').
+Proof. exact np_roundtrip_ni. Qed.
+Print Assumptions roundtrip_noninterference_partial.
+Theorem constructor_establishes_invariant : forall (O : ops) (raw conf : tensor (T O)),
+  mask_le_conf O (np_ctor O (of_plain O raw) conf).
+Proof. exact np_ctor_plain_inv. Qed.
+Print Assumptions constructor_establishes_invariant.
+Example roundtrip_nonvacuous :
+  (forall x, is0 F_ops x = true -> is0 F_ops (cast32 FE x) = true) /\ wf_body F_ops ex_np /\
+  mask_le_conf F_ops ex_np /\ mask_le_conf F_ops ex_np'.
+Proof. exact ex_roundtrip_hyps. Qed.
+Print Assumptions roundtrip_nonvacuous.
+
+(* feature representations: NumPy distance; Torch distance, angle, inner angle, point-line distance, points *)
+Theorem representations_noninterference : forall (O : ops) (E : ext O) (p1 p1' p2 p2' p3 p3' : marr O),
+  agree O p1 p1' -> agree O p2 p2' -> agree O p3 p3' ->
+  np_rep_distance O E p1 p2 = np_rep_distance O E p1' p2' /\
+  t_rep_distance O p1 p2 = t_rep_distance O p1' p2' /\
+  t_rep_angle O E p1 p2 = t_rep_angle O E p1' p2' /\
+  t_rep_inner_angle O E p1 p2 p3 = t_rep_inner_angle O E p1' p2' p3' /\
+  t_rep_point_line O p1 p2 p3 = t_rep_point_line O p1' p2' p3' /\
+  t_rep_points O p1 = t_rep_points O p1'.
+Proof. exact (fun O E p1 p1' p2 p2' p3 p3' H1 H2 H3 =>
+  conj (np_rep_distance_ni O E p1 p1' p2 p2' H1 H2) (conj (t_rep_distance_ni O p1 p1' p2 p2' H1 H2)
+  (conj (t_rep_angle_ni O E p1 p1' p2 p2' H1 H2) (conj (t_rep_inner_angle_ni O E p1 p1' p2 p2' p3 p3' H1 H2 H3)
+  (conj (t_rep_point_line_ni O p1 p1' p2 p2' p3 p3' H1 H2 H3) (t_rep_points_ni O p1 p1' H1)))))). Qed.
+Print Assumptions representations_noninterference.
+
+(* ties: facts regenerated from the source on this run = what the model was written from *)
+Theorem tie_axes : Gen_C09.points_dims = POINTS_DIMS /\
+  Gen_C09.np_conf_reshape = CONF_RESHAPE /\ Gen_C09.torch_conf_reshape = CONF_RESHAPE /\ Gen_C09.tf_conf_reshape = CONF_RESHAPE.
+Proof. exact (conj points_dims_tie conf_reshape_tie). Qed.
+Print Assumptions tie_axes.
+Theorem tie_constructor_rules : (forall (O : ops) (c : T O),
+  missing_sem O Gen_C09.np_mask_rule false c = is0 O c /\
+  missing_sem O Gen_C09.torch_mask_rule true c = is0 O c /\ missing_sem O Gen_C09.tf_mask_rule true c = is0 O c) /\
+  (Gen_C09.np_stack = StackLastDim /\ Gen_C09.torch_stack = StackLastDim /\ Gen_C09.tf_stack = StackLastDim).
+Proof. exact (conj ctor_rule_tie ctor_stack_tie). Qed.
+Print Assumptions tie_constructor_rules.
+Theorem tie_zero_filled : forall O : ops, zf_sem O Gen_C09.torch_zero_filled = tzero O /\ zf_sem O Gen_C09.tf_zero_filled = tzero O.
+Proof. exact zero_filled_tie. Qed.
+Print Assumptions tie_zero_filled.
+Theorem tie_mask_rules : (Gen_C09.torch_arith_mask = MAnd /\ Gen_C09.tf_arith_mask = MAnd /\
+  Gen_C09.torch_sum_mask = MProd /\ Gen_C09.tf_sum_mask = MProd /\
+  Gen_C09.torch_matmul_mask = MProd /\ Gen_C09.tf_matmul_mask = MProd) /\
+  forallb (fun s => existsb (String.eqb s) Gen_C09.torch_whitelist) ["sqrt"; "square"; "acos"]%string = true /\
+  (Gen_C09.np_fill_const = 0%Z /\ Gen_C09.flip_const = (-1)%Z).
+Proof. exact (conj mask_rules_tie (conj whitelist_tie constants_tie)). Qed.
+Print Assumptions tie_mask_rules.
+Theorem tie_representations_end_in_zero_filled : Gen_C09.torch_rep_zero_filled =
+  [("distance", true); ("angle", true); ("inner_angle", true); ("point_line_distance", true); ("points", true)]%string.
+Proof. exact rep_zero_filled_tie. Qed.
+Print Assumptions tie_representations_end_in_zero_filled.
+Theorem tie_sources :
+  Gen_C09.src_torch_masked_tensor_MaskedTensor = C09_Src.torch_masked_tensor_MaskedTensor /\
+  Gen_C09.src_tensorflow_masked_tensor_MaskedTensor = C09_Src.tensorflow_masked_tensor_MaskedTensor /\
+  Gen_C09.src_torch_pose_body_TorchPoseBody = C09_Src.torch_pose_body_TorchPoseBody /\
+  Gen_C09.src_tensorflow_pose_body_TensorflowPoseBody = C09_Src.tensorflow_pose_body_TensorflowPoseBody /\
+  Gen_C09.src_numpy_pose_body_NumPyPoseBody = C09_Src.numpy_pose_body_NumPyPoseBody /\
+  Gen_C09.src_numpy_representation_distance_DistanceRepresentation = C09_Src.numpy_representation_distance_DistanceRepresentation /\
+  Gen_C09.src_torch_representation_distance_DistanceRepresentation = C09_Src.torch_representation_distance_DistanceRepresentation /\
+  Gen_C09.src_torch_representation_angle_AngleRepresentation = C09_Src.torch_representation_angle_AngleRepresentation /\
+  Gen_C09.src_torch_representation_inner_angle_InnerAngleRepresentation = C09_Src.torch_representation_inner_angle_InnerAngleRepresentation /\
+  Gen_C09.src_torch_representation_point_line_distance_PointLineDistanceRepresentation = C09_Src.torch_representation_point_line_distance_PointLineDistanceRepresentation /\
+  Gen_C09.src_torch_representation_points_PointsRepresentation = C09_Src.torch_representation_points_PointsRepresentation.
+Proof. exact sources_tie. Qed.
+Print Assumptions tie_sources.
